@@ -84,7 +84,7 @@ def main():
     ctx = harness.Ctx(a.prop.upper(), tier, seed)
     import glob
 
-    for old in glob.glob(os.path.join(HERE, "replays", a.prop.upper(), "*.json")):
+    for old in glob.glob(os.path.join(os.environ.get("VERIF_REPLAY_DIR", os.path.join(HERE, "replays")), a.prop.upper(), "*.json")):
         os.remove(old)  # replay files describe the current run only
     t0 = time.time()
     try:
